@@ -118,8 +118,11 @@ def gen_params(rng, cls, shape, N, pid, faults):
                 p["initialize"] = {"$npint": p["initialize"], "dtype": "int64"}
         elif r < 0.75:
             p["initialize"] = "random"
-            if rng.random() < 0.65:
+            r2 = rng.random()
+            if r2 < 0.55:
                 p["random_state"] = rng.randrange(100)  # else: the documented default (0)
+            elif r2 < 0.7:
+                p["random_state"] = {"$rs": rng.randrange(100)}  # a RandomState instance
         elif fam == "fps" and pid != "C06":
             k = rng.randint(1, min(N, 4))
             p["initialize"] = rng.sample(range(n_from), k)
@@ -663,6 +666,11 @@ def reductions(trace):
                     continue
                 t = copy.deepcopy(trace)
                 del t["ops"][i]["params"][k]
+                if o.get("lane") is not None:
+                    # lanes are identical objects under different environments: keep them identical
+                    for o2 in t["ops"]:
+                        if o2["op"] == "NEW" and o2.get("lane") == o.get("lane"):
+                            o2["params"].pop(k, None)
                 yield t
     # 5. shrink data: fewer rows / columns (explicit values)
     for k, spec in trace["heap"].items():
